@@ -48,6 +48,11 @@ chk('C09', 'exploration',
     'For every statement/declaration derivation within 1 deviation (lint half) and 3 executable lifecycle programs run through ServeHTTP with a stub backend (simulator half, 3 requests incl. restart, error and a warm-cache hit), each of 6 decorations (/* c */, # c, // c, blank lines, tab+spaces, newline) is inserted into every gap between two consecutive tokens (thorough: all pairs of gaps within a statement). A variant at a documented comment placeholder must parse; elsewhere unparseable variants are skipped. Oracle: the multiset of (rule, severity, message) and the fatal error equal the base program\'s; flows, logs, restarts, response status/headers/body size are identical.',
     'Trusts: mc/gen token/placeholder table; Date/Age/X-Timer headers and elapsed times are not compared.')
 
+chk('C12', 'exploration',
+    'bounded-exhaustive enumeration of ignore-comment placements; differential oracle against the program without them',
+    '12 base programs with several lint errors (different rules, nested in if/else and bare blocks, first and last statement of a block, across two subroutines, after the covered region) x every placement of one ignore comment (next-line before every statement incl. compound ones, trailing on every simple statement, start/end around every contiguous statement range of every block with the end before the next statement or as the last comment of the block) x {no rule list, a covered rule, an uncovered rule, two rules} x {//, #, /* */}, and every pair of placements (thorough: every triple). Oracle: diagnostics(with) = diagnostics(without) minus those located on covered lines (of a listed rule), as multisets of (severity, rule, message).',
+    'Trusts: lintx driver; coverage is computed on line spans of a one-statement-per-line layout; ranges follow the sequential semantics documented in docs/linter.md (an unqualified falco-ignore-end re-enables all rules).')
+
 NOT_YET = {i: 'check not built yet in this session (design in DESIGN.md §4); will be claimed once its command exists' for i in ids if i not in CHECKS}
 
 m = {
